@@ -25,6 +25,7 @@ Record cstate := mkC {
   c_mfs : N;                    (* maxFrameSize *)
   c_cf : N;                     (* framelog.checksumFlag (C int, >= 0 here) *)
   c_wst : bool;                 (* writingSeekTable *)
+  c_pend : bool;                (* frameEndPending (fix 9f11afe): endFrame has started to end the frame and could not flush everything *)
   c_stpos : N; c_stidx : N;     (* framelog.seekTablePos / seekTableIndex *)
   (* ghost *)
   g_cur : list N;               (* input consumed by the inner compressor since its last reset, most recent first *)
@@ -37,7 +38,7 @@ Definition MAX_FRAME_DSIZE := sk_MAX_FRAME_DSIZE.
 
 Definition c_init (cf maxFrameSize : N) : res cstate :=
   if MAX_FRAME_DSIZE <? maxFrameSize then Err sk_E_frameParameter_unsupported
-  else Ok (mkC [] 0 0 [] (if maxFrameSize =? 0 then MAX_FRAME_DSIZE else maxFrameSize) cf false 0 0 [] 0 [] []).
+  else Ok (mkC [] 0 0 [] (if maxFrameSize =? 0 then MAX_FRAME_DSIZE else maxFrameSize) cf false false 0 0 [] 0 [] []).
 
 (* result of one API call: return value (size_t; errors as errval), bytes of input consumed, new state, unused oracle *)
 Record cret := mkCR { cr_ret : N; cr_consumed : N; cr_st : cstate; cr_orc : list inner; cr_out : list N }.
@@ -46,21 +47,23 @@ Section Writer.
   Variable H : list N -> N.
 
   Definition upd_fc (s : cstate) (fc : N) : cstate :=
-    mkC (c_log s) fc (c_fd s) (c_acc s) (c_mfs s) (c_cf s) (c_wst s) (c_stpos s) (c_stidx s)
+    mkC (c_log s) fc (c_fd s) (c_acc s) (c_mfs s) (c_cf s) (c_wst s) (c_pend s) (c_stpos s) (c_stidx s)
         (g_cur s) (g_emit s) (g_frames s) (g_table s).
 
   (* ZSTD_seekable_endFrame; None = the oracle does not start with an IEnd (correspondence failure) *)
   Definition c_end_frame (s : cstate) (orc : list inner) : option cret :=
     match orc with
     | IEnd produced ret :: orc' =>
-        let s1 := mkC (c_log s) (w32 (c_fc s + produced)) (c_fd s) (c_acc s) (c_mfs s) (c_cf s) (c_wst s)
+        (* if (ret) { if (!ZSTD_isError(ret)) frameEndPending = 1; return ret; }  frameEndPending = 0; *)
+        let pend' := if ret =? 0 then false else if is_error ret then c_pend s else true in
+        let s1 := mkC (c_log s) (w32 (c_fc s + produced)) (c_fd s) (c_acc s) (c_mfs s) (c_cf s) (c_wst s) pend'
                       (c_stpos s) (c_stidx s) (g_cur s) (g_emit s + produced) (g_frames s) (g_table s) in
         if negb (ret =? 0) then Some (mkCR ret 0 s1 orc' [])
         else
           let chk := if flag_set (c_cf s1) then H (revT (c_acc s1)) mod 4294967296 else 0 in
           match log_frame (c_log s1) (c_fc s1) (c_fd s1) chk with
           | Ok log' =>
-              Some (mkCR 0 0 (mkC log' 0 0 [] (c_mfs s1) (c_cf s1) (c_wst s1) (c_stpos s1) (c_stidx s1)
+              Some (mkCR 0 0 (mkC log' 0 0 [] (c_mfs s1) (c_cf s1) (c_wst s1) false (c_stpos s1) (c_stidx s1)
                                   [] 0 ((g_emit s1, revT (g_cur s1)) :: g_frames s1) (g_table s1)) orc' [])
           | Err c => Some (mkCR (errval c) 0 s1 orc' [])
           | Trap _ => None
@@ -68,8 +71,9 @@ Section Writer.
     | _ => None
     end.
 
-  (* ZSTD_seekable_compressStream with [inp] = the bytes from input->pos to input->size *)
-  Definition c_compress (s : cstate) (inp : list N) (orc : list inner) : option cret :=
+  (* ZSTD_seekable_compressStream with [inp] = the bytes from input->pos to input->size: the part after the
+     frameEndPending block *)
+  Definition c_compress_body (s : cstate) (inp : list N) (orc : list inner) : option cret :=
     let inLen := N.min (lenN inp) (sub32 (c_mfs s) (c_fd s)) in
     let step1 : option (N * cstate * list inner * N) :=   (* (ret of the inner call, state, oracle, consumed) *)
       if 0 <? inLen then
@@ -79,7 +83,7 @@ Section Writer.
             let fed := firstN inp k in
             let acc' := if flag_set (c_cf s) then rev_append fed (c_acc s) else c_acc s in
             Some (ret,
-                  mkC (c_log s) (w32 (c_fc s + produced)) (w32 (c_fd s + k)) acc' (c_mfs s) (c_cf s) (c_wst s)
+                  mkC (c_log s) (w32 (c_fc s + produced)) (w32 (c_fd s + k)) acc' (c_mfs s) (c_cf s) (c_wst s) (c_pend s)
                       (c_stpos s) (c_stidx s) (rev_append fed (g_cur s)) (g_emit s + produced) (g_frames s) (g_table s),
                   orc', k)
         | _ => None
@@ -98,6 +102,18 @@ Section Writer.
           end
         else Some (mkCR (sub32 (c_mfs s1) (c_fd s1)) k s1 orc1 [])
     end.
+
+  (* ZSTD_seekable_compressStream (fix 9f11afe): a frame end that an explicit endFrame left pending is completed - and the
+     frame logged - before any input goes into the next frame; while it is still pending (or fails) the call returns
+     ZSTD_seekable_endFrame's value and consumes nothing *)
+  Definition c_compress (s : cstate) (inp : list N) (orc : list inner) : option cret :=
+    if c_pend s then
+      match c_end_frame s orc with
+      | None => None
+      | Some r => if negb (cr_ret r =? 0) then Some (mkCR (cr_ret r) 0 (cr_st r) (cr_orc r) [])
+                  else c_compress_body (cr_st r) inp (cr_orc r)
+      end
+    else c_compress_body s inp orc.
 
   (* ZSTD_seekable_endStream with [avail] bytes of output room *)
   Definition c_end_stream (s : cstate) (avail : N) (orc : list inner) : option cret :=
@@ -118,7 +134,7 @@ Section Writer.
     | Some (None, s1, orc1, used) =>
         match write_call (c_cf s1) (c_log s1) (c_stpos s1) (c_stidx s1) (avail - used) with
         | WRet w v =>
-            Some (mkCR v 0 (mkC (c_log s1) (c_fc s1) (c_fd s1) (c_acc s1) (c_mfs s1) (c_cf s1) true (w_pos w) (w_idx w)
+            Some (mkCR v 0 (mkC (c_log s1) (c_fc s1) (c_fd s1) (c_acc s1) (c_mfs s1) (c_cf s1) true (c_pend s1) (w_pos w) (w_idx w)
                                (g_cur s1) (g_emit s1) (g_frames s1) (g_table s1 ++ w_out w)) orc1 (w_out w))
         | _ => None
         end
